@@ -1163,15 +1163,17 @@ impl FromIterator<char> for LeanString {
         let iter = iter.into_iter();
 
         let (lower_bound, _) = iter.size_hint();
-        let mut repr = match Repr::with_capacity(lower_bound) {
-            Ok(buf) => buf,
-            Err(_) => Repr::new(), // Ignore the error and hope that the lower_bound is incorrect.
+        // Accumulate in a `LeanString` (not a bare `Repr`) so that the buffer is released if the
+        // iterator or a push panics.
+        let mut buf = match Repr::with_capacity(lower_bound) {
+            Ok(repr) => LeanString(repr),
+            Err(_) => LeanString::new(), // Ignore the error and hope that the lower_bound is incorrect.
         };
 
         for ch in iter {
-            repr.push_str(ch.encode_utf8(&mut [0; 4])).unwrap_with_msg();
+            buf.push(ch);
         }
-        LeanString(repr)
+        buf
     }
 }
 
